@@ -1890,7 +1890,8 @@ THEOREMS = {
             "Iauthd.Properties.C07_history", "Iauthd.Properties.C07_history_started", "Iauthd.Properties.C07_history_started_total",
             "Iauthd.Properties.C07_two_interleavings", "Iauthd.Proto.run07_conv", "Iauthd.Proto.run07_total", "Iauthd.Proto.exec07_rel",
             "Iauthd.Proto.exec07_foreign", "Iauthd.Proto.reqEvent_rel", "Iauthd.Proto.xqReply_rel", "Iauthd.Proto.reqEvent_keep",
-            "Iauthd.Proto.xqReply_keep", "Iauthd.Proto.stepLine_client", "Iauthd.Proto.dispatch_some", "Iauthd.Proto.start_allConf"],
+            "Iauthd.Proto.xqReply_keep", "Iauthd.Proto.stepLine_client", "Iauthd.Proto.dispatch_some", "Iauthd.Proto.start_allConf",
+            "Iauthd.Properties.C07_reply_event_is_line", "Iauthd.Proto.tokenize_reply"],
     "C08": ["Iauthd.Properties.C08_no_fault", "Iauthd.Properties.C08_line_total", "Iauthd.Properties.C08_chunking",
             "Iauthd.Properties.C08_split", "Iauthd.Proto.splitLines_append", "Iauthd.Proto.feedAll_join", "Iauthd.Proto.stepChunk_total",
             "Iauthd.Proto.stepTimeout_total", "Iauthd.Proto.accept_ok", "Iauthd.Proto.gate_ok", "Iauthd.Proto.reqEvent_ok",
@@ -1938,7 +1939,8 @@ def lean_modules(prop):
         ["Iauthd.Proto.Settle03", "Iauthd.Proto.Settle03H", "Iauthd.Proto.RenderInv", "Iauthd.Proto.RenderStep", "Iauthd.Proto.Render",
          "Iauthd.Proto.RenderHex", "Iauthd.Proto.RenderLines"] if prop == "C03" else []) + (
         ["Iauthd.Proto.RefInv", "Iauthd.Proto.RefInvH"] if prop == "C04" else []) + (
-        ["Iauthd.Proto.RefInv", "Iauthd.Proto.RefInvH", "Iauthd.Proto.Rel07", "Iauthd.Proto.Keep07", "Iauthd.Proto.Hist07", "Iauthd.Proto.Start07",
+        ["Iauthd.Proto.RefInv", "Iauthd.Proto.RefInvH", "Iauthd.Proto.Rel07", "Iauthd.Proto.Keep07", "Iauthd.Proto.Hist07", "Iauthd.Proto.Start07", "Iauthd.Proto.Link07",
+         "Iauthd.Proto.Render", "Iauthd.Proto.RenderHex", "Iauthd.Proto.RenderLines", "Iauthd.Proto.RenderInv", "Iauthd.Proto.RenderStep",
          "Iauthd.Proto.Sim01", "Iauthd.Properties.C10"] if prop == "C07" else []) + ["Iauthd.Properties." + prop]
 
 
